@@ -461,7 +461,7 @@ PINNED = [
 ]
 
 SUBS = {
-    "structured": Sub(judge=judge_structured, gen=gen_structured, quick=3000, thorough=200_000, min_decided=500),
-    "layered": Sub(judge=judge_layered, gen=gen_layered, quick=3000, thorough=200_000, min_decided=500),
-    "formula": Sub(judge=judge_formula, gen=gen_formula, quick=3000, thorough=200_000, min_decided=500),
+    "structured": Sub(judge=judge_structured, gen=gen_structured, quick=10000, thorough=200_000, min_decided=500),
+    "layered": Sub(judge=judge_layered, gen=gen_layered, quick=10000, thorough=200_000, min_decided=500),
+    "formula": Sub(judge=judge_formula, gen=gen_formula, quick=10000, thorough=200_000, min_decided=500),
 }
